@@ -153,7 +153,12 @@ func (w *World) verifyFunc(con *Contract) (res *FuncResult) {
 			e.obls = append(e.obls, o)
 		}
 		in.frameCheck(con, rp, ri)
-		// canary: false must not be provable at a reachable return
+		// canary: false must not be provable at a reachable return (unless the contract declares it dead)
+		if why, dead := con.DeadReturns[ri]; dead {
+			e.note(fmt.Sprintf("%s: return %d is declared unreachable under the contracts: %s", con.Name, ri, why))
+			e.obls = append(e.obls, &Obligation{Name: fmt.Sprintf("%s#dead@ret%d", e.fname, ri), Kind: "dead", Pos: rp.pos, Step: rp.step(e), Reach: rp.st.reach, Goal: "false", Blk: rp.blk})
+			continue
+		}
 		e.obls = append(e.obls, &Obligation{Name: fmt.Sprintf("%s#canary@ret%d", e.fname, ri), Kind: "canary", Pos: rp.pos, Step: rp.step(e), Reach: rp.st.reach, Goal: "false", Canary: true, Blk: rp.blk})
 	}
 	if len(in.rets) == 0 {
@@ -256,8 +261,13 @@ func (in *Inst) frameCheck(con *Contract, rp retPoint, ri int) {
 		}
 	}
 	memAll := false
+	typeAll := map[string]bool{}
 	for _, mi := range con.Modifies {
 		switch mi.Kind {
+		case modType:
+			for _, name := range e.W.typeComps(e, con.Pkg, mi.Name) {
+				typeAll[name] = true
+			}
 		case modMem:
 			memAll = true
 		case modGhost:
@@ -300,7 +310,7 @@ func (in *Inst) frameCheck(con *Contract, rp retPoint, ri int) {
 			continue
 		}
 		ce, cr := entry.get(name), rp.st.get(name)
-		if ce == cr {
+		if ce == cr || typeAll[name] {
 			continue
 		}
 		if strings.HasPrefix(name, "g:") {
